@@ -422,15 +422,13 @@ func runC13(env *Env) {
 	if env.Thorough() {
 		comps = append(comps, Comp{"none", 0})
 		for q := -2; q <= 9; q++ {
-			if q != 0 {
-				comps = append(comps, Comp{"gzip", q})
-			}
+			comps = append(comps, Comp{"gzip", q})
 		}
 		for q := 0; q <= 9; q++ {
 			comps = append(comps, Comp{"brotli", q})
 		}
 	} else {
-		comps = []Comp{{"none", 0}, {"gzip", -2}, {"gzip", 1}, {"gzip", 9}, {"brotli", 0}, {"brotli", 1}, {"brotli", 5}, {"brotli", 9}}
+		comps = []Comp{{"none", 0}, {"gzip", -2}, {"gzip", 0}, {"gzip", 1}, {"gzip", 9}, {"brotli", 0}, {"brotli", 1}, {"brotli", 5}, {"brotli", 9}}
 	}
 	nSeq := 8
 	if env.Thorough() {
